@@ -30,6 +30,8 @@ type SpecEnv struct {
 	pre       *State
 	preLookup func(name string) *Value
 	water0    *Term
+	head       *State
+	headLookup func(name string) *Value
 }
 
 func (env *SpecEnv) child() *SpecEnv {
@@ -469,6 +471,14 @@ func (env *SpecEnv) callExpr(x *ast.CallExpr) *Value {
 		if env.pre != nil {
 			n.st = env.pre
 			n.lookup = env.preLookup
+		}
+		return n.eval(x.Args[0])
+	case "head":
+		// value at the head of the current iteration of the enclosing loop
+		n := *env
+		if env.head != nil {
+			n.st = env.head
+			n.lookup = env.headLookup
 		}
 		return n.eval(x.Args[0])
 	case "obj":
